@@ -66,6 +66,8 @@ a = s.index('class XlsxContent(')
 c = s.index('images=list(sheet.images),', a)
 s = s[:c] + 'images=[],' + s[c+len('images=list(sheet.images),'):]
 open(E+'data_types.py','w').write(s)"
+run0 B10_pptx_copy_resyncs_after_truncated_sof 1 "$ED
+sub(E+'ms_modern/pptx_extractor.py', '                    return (width or None, height or None)\n                break\n', '                    return (width or None, height or None)\n                i += 1\n                continue\n')"
 # ---- harmless edits ----
 run0 H1_rename_locals 0 "$ED
 s = open(E+'util/zip_utils.py').read()
